@@ -487,6 +487,9 @@ async fn run_e_group(cases: &[String]) -> Vec<String> {
     let mut known: Vec<(String, String)> = rows.iter().map(|r| (r.0.clone(), r.1.clone())).collect();
     if mode != "u" {
         known.extend(targets.iter().cloned());
+    } else {
+        // unknown to system_schema.tables even when scylla_tables has a row for it
+        known.retain(|k| !targets.contains(k));
     }
     known.sort();
     known.dedup();
@@ -778,34 +781,54 @@ fn gen_class_name(r: &mut Rng) -> Option<String> {
 fn gen_e_group(r: &mut Rng) -> Vec<String> {
     let scen = match r.below(12) {
         0 => "x",
-        1 => "u",
-        2 => "n",
+        1 | 2 => "u",
+        3 | 4 => "n",
         _ => "s",
     };
-    let mode = format!("{}{}", scen, match r.below(10) {
-        0..=3 => "m",
-        4 => "d",
-        _ => "f",
-    });
+    let fetch = if scen == "n" && r.bool() {
+        "m" // the one cell where a table without column rows still gets its partitioner
+    } else {
+        match r.below(10) {
+            0..=3 => "m",
+            4 => "d",
+            _ => "f",
+        }
+    };
+    let mode = format!("{}{}", scen, fetch);
     let kss = ["ks", "other"];
     let tbs = ["log", "t", "u", "v"];
+    let class_field = |c: Option<String>| match c {
+        None => "N".to_string(),
+        Some(s) => format!("V{}", if s.is_empty() { String::new() } else { hex_bytes(s.as_bytes()) }),
+    };
     let mut rows: Vec<String> = Vec::new();
     let nrows = r.range(0, 7) as usize;
     for _ in 0..nrows {
         let k = *r.pick(&kss);
         let t = *r.pick(&tbs);
-        let p = match gen_class_name(r) {
-            None => "N".to_string(),
-            Some(s) => format!("V{}", if s.is_empty() { String::new() } else { hex_bytes(s.as_bytes()) }),
-        };
-        rows.push(format!("{}:{}:{}", k, t, p));
+        let c = gen_class_name(r);
+        rows.push(format!("{}:{}:{}", k, t, class_field(c)));
+    }
+    let n = r.range(3, 6) as usize;
+    let targets: Vec<(&str, &str)> = (0..n)
+        .map(|_| (*r.pick(&kss), if scen == "u" { "ghost" } else { *r.pick(&tbs) }))
+        .collect();
+    // scenarios u and n: half of the groups end with a CDC / Murmur3 row for every target, so that
+    // "a row without a system_schema.tables entry" and "a row of a table without column rows" occur
+    if (scen == "u" || scen == "n") && r.bool() {
+        let mut seen: Vec<(&str, &str)> = Vec::new();
+        for t in &targets {
+            if !seen.contains(t) {
+                seen.push(*t);
+                let c = if r.chance(3, 4) { "com.scylladb.dht.CDCPartitioner" } else { "org.apache.cassandra.dht.Murmur3Partitioner" };
+                rows.push(format!("{}:{}:{}", t.0, t.1, class_field(Some(c.to_string()))));
+            }
+        }
     }
     let rows_s = if rows.is_empty() { "-".to_string() } else { rows.join(",") };
-    let n = r.range(3, 6) as usize;
-    (0..n)
-        .map(|_| {
-            let k = *r.pick(&kss);
-            let t = if scen == "u" { "ghost" } else { *r.pick(&tbs) };
+    targets
+        .iter()
+        .map(|(k, t)| {
             let len = r.range(0, 20) as usize;
             format!("E {} {} {}:{} {}", mode, rows_s, k, t, hex_bytes(&gen_bytes(r, len)))
         })
